@@ -46,13 +46,14 @@ Definition empty_index : refindex := RI [] [].
 
 (* ---------- ref_keys of a line ----------------------------------------------------------- *)
 
-(* GraphInline::ref_keys: a Link contributes Key::from_file_name(url) — every link, also an
+(* GraphInline::ref_keys: a Link contributes Key::name(url) (model/graph.rs:372-377, ref_key; the reader has
+   taken the extension off already) — every link, also an
    external one, and without the directory of the note the line belongs to; an image
    contributes the links of its alt text; the label of a link is not searched *)
 Fixpoint inline_ref_keys (i : inline) : list string :=
   match i with
   | Emph l | Strong l | Strike l => flat_map inline_ref_keys l
-  | Link url _ _ _ => [key_from_file_name url]
+  | Link url _ _ _ => [key_name url]
   | Image _ _ l => flat_map inline_ref_keys l
   | _ => []
   end.
